@@ -834,7 +834,7 @@ def replay(chk, path):
     else:
         print("replay: the recorded failure (%s) does not occur any more%s" % (
             rec["kind"], "; other failures: %s" % sorted(set(f[0] for f in fails)) if fails else ""))
-    return chk.finish(level="exploration")
+    return chk.finish(level="proof")
 
 
 def build_cases(seed, n_schemas):
@@ -1087,7 +1087,10 @@ def main():
                         "command-line order (decoy files are only put where this rule does not look first)", "equivalence of the Python outputs is observed on the classes reachable from the root message and on "
                         "module-level integer names", "the single-file reference is the concatenation of the files' "
                         "declarations in include order (for the unaugmented schema this is schema.to_prophy up to order)"]
-    return chk.finish(level="exploration")
+    # the tie of the theorems of props/C16.v: the real FileProcessor against model/PcFiles.v on generated include graphs
+    import filecorr
+    filecorr.run(chk, 250 if chk.tier == 'quick' else 3000)
+    return chk.finish(level="proof")
 
 
 if __name__ == "__main__":
